@@ -211,7 +211,7 @@ def main():
     print('%s tier=%s seed=%d evaluations=%d distinct_nontrivial=%d known=%d new=%d wall=%.1fs' % (
         cid, args.tier, common.SEED, agg['evaluations'], agg['nontrivial'], len(known_seen), len(new), wall))
     if rc == 0 and agg['inconclusive']:
-        for r in agg['inconclusive'][:10]:
+        for r in agg['inconclusive'][:3]:
             print('INCONCLUSIVE property=%s reason=%s' % (cid, str(r)[:600].replace('\n', ' | ')))
         return 2
     if rc == 0 and (agg['evaluations'] < 1 or agg['nontrivial'] < 2):
